@@ -44,7 +44,7 @@ def setup(obs):
     monitors.install_to_mask_monitor(obs, [lambda o, region, mode, sub, mask: monitors.judge_mask_bbox(o, region, mask)])
 
 
-DELTAS = ['-1e-3', '-ulp', '0', '+ulp', '+1e-3', '+0.49', '-0.49', 'rand']
+DELTAS = ['-1e-3', '-ulp', '0', '+ulp', '+1e-3', '+0.49', '-0.49', 'rand', '+2e-12', '-2e-12', '+4e-11', '-4e-11', '+1e-9', '-1e-9']
 
 
 def generate(rng, tier, shard, nshards):
